@@ -54,8 +54,10 @@ const AFTER_COMMENT: [&str; 6] = ["", "  ", "\t", "\n", "    ", "\r\n"];
 
 pub fn comment_text(s: &mut Src, counter: &mut usize) -> String {
     *counter += 1;
-    match s.below(8) {
+    match s.below(9) {
         0 | 1 => format!(" c{}", counter),
+        // far wider than any usual line width
+        8 => format!(" c{} {}", counter, "wide comment text ".repeat(7 + s.below(6))),
         6 => format!(" c{} \u{2028}x\u{85}y\u{2029} ä€😀", counter),
         7 => format!(" c{}\r", counter),
         2 => format!("c{}", counter),
